@@ -181,7 +181,7 @@ theorem repo_panics_copy_root_map :
 
 /-- `reset-nil-ptr-panics`: Reset dereferences the nil `*int` field `P`. -/
 theorem repo_panics_reset_nil_ptr :
-    (resetM GenCfg.repo exNode .ptr exVal).isPanic = true := by
+    (resetM GenCfg.original exNode .ptr exVal).isPanic = true := by
   decide
 
 /-- `set-nil-map-store`: Set on a nil root map stores into it. -/
